@@ -234,8 +234,12 @@ def p_mutating(lst, d=None, tag=None):
     return seen
 
 
-def p_poison(x, poison=(), big=0):
+def p_poison(x, poison=(), big=0, origin_only=()):
     truth('p-enter', x=x)
+    if x in origin_only:
+        # a result the parent cannot rebuild (class of the child's main script, failing __setstate__, ...)
+        truth('p-leave', x=x)
+        return OriginOnly(x)
     if isinstance(x, dict) and x.get('$swallow'):
         # uncooperative item: swallows every Exception forever
         while True:
